@@ -114,6 +114,7 @@ def mk(ty, name):
     if k == "seq":
         n = c.fresh(name + ".len", z3.IntSort())
         c.assume(n >= 0)
+        c.lengths.append(n)
         a = c.fresh(name + ".arr", z3.ArraySort(z3.IntSort(), sort_of(ty[1])))
         return SSeq(("arr", SInt(n), a, ty[1]), ty[2])
     if k == "tuple":
